@@ -280,3 +280,300 @@ def translate(src: str):
         units.append({"unit": f"_HyperRectangleGrid.{fn.name}", "file": "src/grid/cubic.py",
                       "lines": [fn.lineno, fn.end_lineno], "sha": src_sha(seg)})
     return "\n".join(out) + "\n", units
+
+
+# =====================================================================================================
+# Per-axis symbolic translation of UniformGrid.from_molecule (rotate=False) and UniformGrid.closest_point
+# (which="closest") into definitions over the NumOps record (C13_num.v).
+#
+# With rotate=False the axes are diag(spacing) and every statement of from_molecule acts on the three Cartesian
+# directions independently; closest_point first rejects non-diagonal axes, after which it also acts per direction.
+# The interpreter therefore carries ONE representative direction: a value is a Coq term for that direction's
+# component.  Per-direction inputs are Coq variables:
+#   from_molecule: com (= dot(atcorenums, x)/sum(atcorenums)), mx (= amax x), mn (= amin x), spacing, ext
+#   closest_point: p (point[i]), orig (origin[i]), d (axes[i,i]), n (shape[i])
+# Anything outside the few recognised NumPy idioms raises Unsupported.
+# =====================================================================================================
+from fractions import Fraction  # noqa: E402
+
+
+class Num:  # component of type T
+    def __init__(self, s, ceil_of=None):
+        self.s, self.ceil_of = s, ceil_of
+
+
+class Int:  # component of type Z
+    def __init__(self, s):
+        self.s = s
+
+
+class Special:
+    def __init__(self, name, arg=None):
+        self.name, self.arg = name, arg
+
+    def __repr__(self):
+        return f"Special({self.name})"
+
+
+def _const_T(c):
+    fr = Fraction(c)
+    n, d = fr.numerator, fr.denominator
+    zn = f"({n})%Z" if n < 0 else f"{n}%Z"
+    if d == 1:
+        return f"(nofZ o {zn})"
+    return f"(ndiv o (nofZ o {zn}) (nofZ o {d}%Z))"
+
+
+def _as_T(v):
+    if isinstance(v, Num):
+        return v.s
+    if isinstance(v, Int):
+        return f"(nofZ o {v.s})"
+    if isinstance(v, (int, float)) and not isinstance(v, bool):
+        return _const_T(v)
+    raise Unsupported(f"not a number: {v!r}")
+
+
+class AxisInterp:
+    def __init__(self, env, self_attrs):
+        self.env = dict(env)
+        self.self_attrs = self_attrs
+        self.guards: list[str] = []
+
+    # ------------------------------------------------------------------ arithmetic
+    def arith(self, op, a, b):
+        num = (int, float)
+        if isinstance(a, num) and isinstance(b, num) and not isinstance(a, bool) and not isinstance(b, bool):
+            if isinstance(op, ast.Add):
+                return a + b
+            if isinstance(op, ast.Sub):
+                return a - b
+            if isinstance(op, ast.Mult):
+                return a * b
+            if isinstance(op, ast.Div):
+                return Fraction(a) / Fraction(b)
+            raise Unsupported("constant operator")
+        if isinstance(a, Special) and isinstance(b, Special) and isinstance(op, ast.Div) and (a.name, b.name) == ("zdotx", "totz"):
+            return Num("com")  # centre of nuclear charge, this direction
+        if isinstance(a, Special) and isinstance(b, Special) and isinstance(op, ast.Sub) and (a.name, b.name) == ("axes", "diagmat"):
+            return Special("offdiag")
+        if isinstance(a, Special) or isinstance(b, Special):
+            raise Unsupported(f"arithmetic on {a!r} / {b!r}")
+        both_int = all(isinstance(x, Int) or (isinstance(x, int) and not isinstance(x, bool)) for x in (a, b))
+        if both_int and isinstance(op, (ast.Add, ast.Sub, ast.Mult)):
+            sym = {ast.Add: "+", ast.Sub: "-", ast.Mult: "*"}[type(op)]
+            f = lambda v: v.s if isinstance(v, Int) else (f"({v})" if v < 0 else str(v))  # noqa: E731
+            return Int(f"({f(a)} {sym} {f(b)})%Z")
+        fn = {ast.Add: "nadd", ast.Sub: "nsub", ast.Mult: "nmul", ast.Div: "ndiv"}.get(type(op))
+        if fn is None:
+            raise Unsupported(f"operator {type(op).__name__}")
+        return Num(f"({fn} o {_as_T(a)} {_as_T(b)})")
+
+    # ------------------------------------------------------------------ expressions
+    def ev(self, e):
+        if isinstance(e, ast.Constant):
+            if isinstance(e.value, (int, float, str)) or e.value is None:
+                return e.value
+            raise Unsupported(f"constant {e.value!r}")
+        if isinstance(e, ast.Name):
+            if e.id not in self.env:
+                raise Unsupported(f"unknown name {e.id}")
+            return self.env[e.id]
+        if isinstance(e, ast.Attribute):
+            if isinstance(e.value, ast.Name) and e.value.id == "self" and e.attr in self.self_attrs:
+                return self.self_attrs[e.attr]
+            raise Unsupported(f"attribute {ast.dump(e)[:80]}")
+        if isinstance(e, ast.List):
+            return [self.ev(x) for x in e.elts]
+        if isinstance(e, ast.BinOp):
+            return self.arith(e.op, self.ev(e.left), self.ev(e.right))
+        if isinstance(e, ast.UnaryOp) and isinstance(e.op, ast.Not):
+            v = self.ev(e.operand)
+            if isinstance(v, bool):
+                return not v
+            if isinstance(v, Special) and v.name == "is_diagonal":
+                return Special("not_diagonal")
+            raise Unsupported("not of a non-boolean")
+        if isinstance(e, ast.IfExp):
+            t = self.ev(e.test)
+            if not isinstance(t, bool):
+                raise Unsupported("conditional expression with a symbolic test")
+            return self.ev(e.body if t else e.orelse)
+        if isinstance(e, ast.Compare) and len(e.ops) == 1 and isinstance(e.ops[0], ast.Eq):
+            a, b = self.ev(e.left), self.ev(e.comparators[0])
+            if isinstance(a, Special) and a.name == "n_offdiag" and b == 0:
+                return Special("is_diagonal")
+            if isinstance(a, (str, bool, int)) and isinstance(b, (str, bool, int)):
+                return a == b
+            raise Unsupported("comparison")
+        if isinstance(e, ast.Subscript):
+            base, idx = self.ev(e.value), self.ev(e.slice)
+            if isinstance(idx, Special) and idx.name == "axis_index" and isinstance(base, (Num, Int)):
+                return base  # component of a per-direction vector
+            raise Unsupported("subscript")
+        if isinstance(e, ast.ListComp):
+            if len(e.generators) != 1 or e.generators[0].ifs or e.generators[0].is_async or not isinstance(e.generators[0].target, ast.Name):
+                raise Unsupported("list comprehension shape")
+            it = self.ev(e.generators[0].iter)
+            var = e.generators[0].target.id
+            if isinstance(it, Special) and it.name == "axes":
+                self.env[var] = Special("axis_row")
+            elif isinstance(it, Special) and it.name == "range_ndim":
+                self.env[var] = Special("axis_index")
+            else:
+                raise Unsupported("list comprehension over something else than self.axes / range(self.ndim)")
+            v = self.ev(e.elt)
+            del self.env[var]
+            if not isinstance(v, (Num, Int)):
+                raise Unsupported("list comprehension element")
+            return Special("percomp", v)
+        if isinstance(e, ast.Call):
+            return self.call(e)
+        raise Unsupported(f"expression {type(e).__name__}")
+
+    def call(self, e):
+        f = e.func
+        args = [self.ev(a) for a in e.args]
+        kw = {k.arg: self.ev(k.value) for k in e.keywords}
+        dotted = []
+        g = f
+        while isinstance(g, ast.Attribute):
+            dotted.append(g.attr)
+            g = g.value
+        if isinstance(g, ast.Name):
+            dotted.append(g.id)
+        name = ".".join(reversed(dotted))
+        if name == "np.sum" and len(args) == 1 and not kw and isinstance(args[0], Special) and args[0].name == "atcorenums":
+            return Special("totz")
+        if name == "np.dot" and len(args) == 2 and not kw:
+            a, b = args
+            if isinstance(a, Special) and isinstance(b, Special) and (a.name, b.name) == ("atcorenums", "atcoords"):
+                return Special("zdotx")
+            if isinstance(a, (Num, Int)) and isinstance(b, Special) and b.name == "diag":
+                return self.arith(ast.Mult(), a, b.arg)  # row vector times diag(s): componentwise
+            raise Unsupported("np.dot arguments")
+        if name == "np.diag" and len(args) == 1 and not kw:
+            a = args[0]
+            if isinstance(a, list) and len(a) == 3 and all(isinstance(x, Num) and x.s == a[0].s for x in a):
+                return Special("diag", a[0])
+            if isinstance(a, Num) and a.s == "d":
+                return Special("diagmat")
+            raise Unsupported("np.diag argument")
+        if name == "np.diagonal" and len(args) == 1 and not kw and isinstance(args[0], Special) and args[0].name == "axes":
+            return Num("d")
+        if name == "np.count_nonzero" and len(args) == 1 and not kw and isinstance(args[0], Special) and args[0].name == "offdiag":
+            return Special("n_offdiag")
+        if name in ("np.amax", "np.amin") and len(args) == 1 and kw == {"axis": 0} and isinstance(args[0], Special) and args[0].name == "atcoords":
+            return Num("mx" if name == "np.amax" else "mn")
+        if name == "np.ceil" and len(args) == 1 and not kw and isinstance(args[0], Num):
+            return Num(f"(nofZ o (nceil o {args[0].s}))", ceil_of=args[0].s)
+        if name == "np.array" and len(args) == 2 and not kw and args[1] is int:
+            if isinstance(args[0], Num) and args[0].ceil_of is not None:
+                return Int(f"(nceil o {args[0].ceil_of})")
+            raise Unsupported("integer cast of a non-integral value (truncation is not modelled)")
+        if name in ("np.array", "np.asarray") and len(args) == 1 and not kw:
+            a = args[0]
+            if isinstance(a, Special) and a.name == "percomp":
+                return a.arg
+            if isinstance(a, (Num, Int)):
+                return a
+            raise Unsupported(f"{name} argument")
+        if name == "np.linalg.norm" and len(args) == 1 and not kw and isinstance(args[0], Special) and args[0].name == "axis_row":
+            if "diagonal" not in self.guards:
+                raise Unsupported("norm of an axis row without the diagonal-axes guard")
+            return Num("(nabs o d)")  # the row has a single non-zero entry d
+        if name == "np.rint" and len(args) == 1 and not kw and isinstance(args[0], Num):
+            return Int(f"(nrint o {args[0].s})")
+        if name == "np.clip" and len(args) == 3 and not kw and isinstance(args[0], Int):
+            lo, hi = args[1], args[2]
+            f2 = lambda v: v.s if isinstance(v, Int) else (f"({v})%Z" if isinstance(v, int) and not isinstance(v, bool) else None)  # noqa: E731
+            if f2(lo) is None or f2(hi) is None:
+                raise Unsupported("np.clip bounds")
+            return Int(f"(Z.min (Z.max {args[0].s} {f2(lo)}) {f2(hi)})")  # minimum(maximum(a, lo), hi)
+        if name == "range" and len(args) == 1 and isinstance(args[0], Special) and args[0].name == "ndim":
+            return Special("range_ndim")
+        if name == "int" and len(args) == 1 and not kw and isinstance(args[0], (Int, Special)):
+            return args[0]
+        if isinstance(f, ast.Attribute) and f.attr == "astype" and len(args) == 1 and args[0] is int and not kw:
+            v = self.ev(f.value)
+            if isinstance(v, Int):
+                return v
+            raise Unsupported("astype(int) of a non-integral value")
+        if name == "self.coordinates_to_index" and len(args) == 1 and not kw and isinstance(args[0], Int):
+            return Special("flat_index", args[0])
+        if name == "cls" and len(args) == 4 and not kw:
+            return Special("grid", tuple(args[:3]))
+        raise Unsupported(f"call {name}")
+
+    # ------------------------------------------------------------------ statements
+    def block(self, stmts):
+        for s in stmts:
+            if isinstance(s, ast.Expr) and isinstance(s.value, ast.Constant) and isinstance(s.value.value, str):
+                continue
+            if isinstance(s, ast.Assign) and len(s.targets) == 1 and isinstance(s.targets[0], ast.Name):
+                if s.targets[0].id in ("self", "cls"):
+                    raise Unsupported("assignment to self/cls")
+                self.env[s.targets[0].id] = self.ev(s.value)
+            elif isinstance(s, ast.If):
+                t = self.ev(s.test)
+                if isinstance(t, bool):
+                    self.block(s.body if t else s.orelse)
+                elif isinstance(t, Special) and t.name == "not_diagonal" and not s.orelse and len(s.body) == 1 and isinstance(s.body[0], ast.Raise):
+                    self.guards.append("diagonal")
+                else:
+                    raise Unsupported("if with an unsupported test")
+            elif isinstance(s, ast.Return) and s.value is not None:
+                raise _Return(self.ev(s.value))
+            elif isinstance(s, ast.Raise):
+                raise Unsupported("reachable raise")
+            else:
+                raise Unsupported(f"statement {type(s).__name__}")
+
+    def run(self, fn):
+        try:
+            self.block(fn.body)
+        except _Return as r:
+            return r.value
+        raise Unsupported("function falls off the end")
+
+
+def translate_axis(src: str):
+    """Returns (coq_text, units): origin_axis_gen / shape_axis_gen (from_molecule, rotate=False) and closest_coord_gen."""
+    from vlib.core import src_sha
+
+    tree = ast.parse(src)
+    fm = find_method(tree, "UniformGrid", "from_molecule")
+    cp = find_method(tree, "UniformGrid", "closest_point")
+    names = [a.arg for a in fm.args.args]
+    if names != ["cls", "atcorenums", "atcoords", "spacing", "extension", "rotate", "weight"] or fm.args.vararg or fm.args.kwarg or fm.args.kwonlyargs:
+        raise Unsupported("unexpected signature of from_molecule")
+    it = AxisInterp({"atcorenums": Special("atcorenums"), "atcoords": Special("atcoords"), "spacing": Num("spacing"),
+                     "extension": Num("ext"), "rotate": False, "weight": "Trapezoid", "int": int}, {})
+    r = it.run(fm)
+    if not (isinstance(r, Special) and r.name == "grid"):
+        raise Unsupported("from_molecule must return cls(origin, axes, shape, weight)")
+    origin, axes, shape = r.arg
+    if not (isinstance(origin, Num) and isinstance(shape, Int) and isinstance(axes, Special) and axes.name == "diag"
+            and isinstance(axes.arg, Num) and axes.arg.s == "spacing"):
+        raise Unsupported("from_molecule(rotate=False): origin/axes/shape of an unexpected kind")
+    out = ["(* from_molecule(rotate=False), one Cartesian direction: com = centre of nuclear charge, mx/mn = max/min nuclear coordinate *)",
+           f"Definition shape_axis_gen {{T}} (o : NumOps T) (com mx mn spacing ext : T) : Z :=\n  {shape.s}.",
+           f"Definition origin_axis_gen {{T}} (o : NumOps T) (com mx mn spacing ext : T) : T :=\n  {origin.s}.", ""]
+    names = [a.arg for a in cp.args.args]
+    if names != ["self", "point", "which"] or cp.args.vararg or cp.args.kwarg or cp.args.kwonlyargs:
+        raise Unsupported("unexpected signature of closest_point")
+    it = AxisInterp({"point": Num("p"), "which": "closest", "int": int},
+                    {"axes": Special("axes"), "origin": Num("orig"), "shape": Int("n"), "ndim": Special("ndim")})
+    r = it.run(cp)
+    if not (isinstance(r, Special) and r.name == "flat_index" and isinstance(r.arg, Int)):
+        raise Unsupported("closest_point must return the flat index of integer coordinates")
+    if "diagonal" not in it.guards:
+        raise Unsupported("closest_point without the diagonal-axes guard")
+    out += ["(* closest_point(which=\"closest\"), one direction of a diagonal axes matrix: p = point[i], orig = origin[i], d = axes[i,i], n = shape[i];",
+            "   the result is the integer coordinate handed to coordinates_to_index *)",
+            f"Definition closest_coord_gen {{T}} (o : NumOps T) (p orig d : T) (n : Z) : Z :=\n  {r.arg.s}.", ""]
+    units = []
+    for fn in (fm, cp):
+        seg = ast.get_source_segment(src, fn)
+        units.append({"unit": f"UniformGrid.{fn.name}", "file": "src/grid/cubic.py", "lines": [fn.lineno, fn.end_lineno], "sha": src_sha(seg)})
+    return "\n".join(out) + "\n", units
